@@ -112,6 +112,24 @@ pub fn c31(out: &mut Out, ex: &mut Exec, seed: u64, thorough: bool) {
         let mut ex2 = Exec::default();
         let r2: Vec<String> = v.iter().map(|l| ex2.line(l)).collect();
         out.evaluations += 2;
+        // every fifth known-strategy case once more on a machine that is REUSED: an earlier user enabled keyboard interrupts
+        // (KBSR bit 14) with nothing queued, then the machine was reset; from there on the history must be that of the fresh
+        // machine (reset keeps the devices, so the configuration lines are not repeated)
+        if !seeded && id % 5 == 1 {
+            let k = v.iter().position(|l| l == "sim dsset").unwrap();
+            let mut ex3 = Exec::default(); let mut r3: Vec<String> = vec![]; let mut all3: Vec<String> = vec![];
+            for (i, l) in v.iter().enumerate() {
+                let r = ex3.line(l); out.op(l, &r); all3.push(l.clone()); r3.push(r);
+                if i == k { for p in ["sim hostwrite fe00 4000 ffff 1 0 1 0", "sim reset"] { let r = ex3.line(p); out.op(p, &r); all3.push(p.to_string()); } }
+            }
+            out.evaluations += 1;
+            // the `chg=` field lists cells that differ from the interpreter's shadow copy, which the extra reset re-synchronises:
+            // it is harness bookkeeping, not machine state (memory is compared by the closing `sim memhash`)
+            let strip = |s: &str| -> String { s.split(' ').filter(|t| !t.starts_with("chg=")).collect::<Vec<_>>().join(" ") };
+            if let Some(i) = (k + 1..v.len()).find(|&i| strip(&r1[i]) != strip(&r3[i])) {
+                out.fail(out.lines, format!("a reset machine diverges from a fresh one with the same configuration at op {} `{}`: fresh `{}` vs reused `{}`", i, v[i], r1[i], r3[i]), all3.join("\n"));
+            } else { out.hist.hit("reused_after_reset_identical"); }
+        }
         if r1 != r2 {
             let i = r1.iter().zip(r2.iter()).position(|(a, b)| a != b).unwrap_or(0);
             out.fail(out.lines, format!("two runs of the same seeded configuration diverge at op {} `{}`: `{}` vs `{}`", i, v[i], r1[i], r2[i]), v.join("\n"));
@@ -155,5 +173,5 @@ pub fn c31(out: &mut Out, ex: &mut Exec, seed: u64, thorough: bool) {
             }
         }
     }
-    out.rule = "twin seeded timers (exact-then-widened, inclusive, half-open, from zero) driven through identical random histories of set_range / set_exact / reset / io_reset / poll must agree after every operation; generated programs with keyboard input and a seeded timer over an inclusive or an end-exclusive range (interrupt handler = RTI), machine initialised with Seeded{seed} (even cases; the full seeded image is dumped to the model) or Known{value} (odd cases; `sim known` checks every register and every word outside the OS image and the I/O page equals the value, uninitialised); 30-90 single steps then run to halt; run twice in independent interpreters: every op's digest (registers, PC, PSR, changed memory, interrupts via frames, output) must be identical, and run 1 is compared with the model".into();
+    out.rule = "twin seeded timers (exact-then-widened, inclusive, half-open, from zero) driven through identical random histories of set_range / set_exact / reset / io_reset / poll must agree after every operation; generated programs with keyboard input and a seeded timer over an inclusive or an end-exclusive range (interrupt handler = RTI), machine initialised with Seeded{seed} (even cases; the full seeded image is dumped to the model) or Known{value} (odd cases; `sim known` checks every register and every word outside the OS image and the I/O page equals the value, uninitialised); 30-90 single steps then run to halt; run twice in independent interpreters: every op's digest (registers, PC, PSR, changed memory, interrupts via frames, output) must be identical, and run 1 is compared with the model; every fifth Known case is repeated on a machine reused after `reset` (an earlier user had enabled keyboard interrupts with nothing queued) and must match the fresh history".into();
 }
